@@ -215,6 +215,11 @@ func c04History(c *Case) {
 					"used": du, "fresh": df, "doc": o.d.XML()})
 				return
 			}
+			if strings.Contains(du, "NON-TERMINATION") {
+				c.Violation("NON-TERMINATION", map[string]interface{}{"expr": src, "history": hist, "step": step, "operation": "resume " + o.desc,
+					"observed": du, "doc": o.d.XML()})
+				return
+			}
 			if doneU {
 				open = append(open[:i], open[i+1:]...)
 			}
@@ -287,6 +292,13 @@ func c04History(c *Case) {
 		if du != df {
 			c.Violation("USED-DIFFERS-FROM-FRESH", map[string]interface{}{"expr": src, "history": hist, "step": step, "operation": desc,
 				"used": du, "fresh": df, "doc": d.XML(), "ctx": ctx.Label()})
+			return
+		}
+		if strings.Contains(du, "NON-TERMINATION") {
+			// the workload is cost-bounded far below the op budget: a history whose operation does not
+			// finish cannot be compared with anything, and every further one would cost a full budget
+			c.Violation("NON-TERMINATION", map[string]interface{}{"expr": src, "history": hist, "step": step, "operation": desc,
+				"observed": du, "doc": d.XML(), "ctx": ctx.Label()})
 			return
 		}
 		if step > 0 && nu > 0 {
